@@ -1641,6 +1641,7 @@ class Stream(AbstractStream):
             self._imol.data = other._imol.data
         if phase and self._imol.data.ndim == 1:
             self._imol._phase = other._imol._phase
+        if TP or flow: self.reset_cache() # Equilibrium caches hold the indexer and the thermal condition
         if self._imol.data.ndim == 2 and (flow or TP): # Keep phase views attached to the linked data
             imol = self._imol
             for phase, stream in self._streams.items():
